@@ -1,7 +1,7 @@
 (* Extraction of the executable model to OCaml.  ExtrOcamlBasic only: bool, option, unit,
    list, prod, sumbool map to OCaml's; Z, positive, N, nat, comparison stay Coq datatypes. *)
 From Coq Require Import ExtrOcamlBasic.
-From S3db Require Import Base KeyOrder RowMerge Tree Store KvProto Inst Stmt SqlSession NodeCodec Sched Client Crypto.
+From S3db Require Import Base KeyOrder RowMerge Tree Store KvProto Inst Stmt SqlSession NodeCodec Sched Client Crypto Schema.
 From S3db.spec Require Import SpecMerge.
 Extraction Language OCaml.
 Extraction "model.ml"
@@ -19,5 +19,5 @@ Extraction "model.ml"
   SqlSession.sconn0 SqlSession.sql_create SqlSession.sql_refresh SqlSession.sql_insert SqlSession.sql_update SqlSession.sql_delete
   SqlSession.sql_begin SqlSession.sql_commit SqlSession.sql_rollback SqlSession.sql_select SqlSession.sql_version SqlSession.sql_vacuum
   SqlSession.sql_set_write_time SqlSession.finish_rollback SqlSession.find_rows SqlSession.sql_set_deadline SqlSession.sql_changes
-  SpecMerge.interp Stmt.kv_vacuum NodeCodec.node_roundtrip Sched.sched_run Sched.finished Store.bind Client.client_reader Client.client_merger Client.client_writer Crypto.encrypt Crypto.decrypt
+  SpecMerge.interp Stmt.kv_vacuum NodeCodec.node_roundtrip Sched.sched_run Sched.finished Store.bind Client.client_reader Client.client_merger Client.client_writer Crypto.encrypt Crypto.decrypt Schema.convert_schema Schema.table_args
   Inst.cfg_plain Inst.cfg_rows Inst.obj_eqb_plain Inst.obj_eqb_rows Inst.run_plain Inst.run_rows.
